@@ -1,0 +1,139 @@
+//go:build verif
+
+// Contracts for /verif (contract-based deductive verification). This file is
+// compiled only with the build tag "verif"; it contains ghost vocabulary,
+// specification functions written from RFC 6455, and //@ contract blocks that
+// the verification-condition generator in /verif/govc reads. Nothing here is
+// called by the library.
+
+package ws
+
+import (
+	"io"
+)
+
+// ---------------------------------------------------------------------------
+// Ghost vocabulary (interpreted by the VC generator; the Go bodies are only
+// there so that the package compiles and a replay can execute the clauses).
+
+func forall(lo, hi int, f func(k int) bool) bool {
+	for k := lo; k < hi; k++ {
+		if !f(k) {
+			return false
+		}
+	}
+	return true
+}
+
+func exists(lo, hi int, f func(k int) bool) bool {
+	for k := lo; k < hi; k++ {
+		if f(k) {
+			return true
+		}
+	}
+	return false
+}
+
+func ghostOld() {}
+
+func iteInt(c bool, a, b int) int {
+	if c {
+		return a
+	}
+	return b
+}
+
+func iteByte(c bool, a, b byte) byte {
+	if c {
+		return a
+	}
+	return b
+}
+
+// Abstract stream state of an io.Reader / io.Writer (uninterpreted in the VCs).
+func inPos(r io.Reader) int             { return 0 }
+func inEnd(r io.Reader) int             { return 0 }
+func inByte(r io.Reader, i int) byte    { return 0 }
+func inErr(r io.Reader) error           { return nil }
+func outLen(w io.Writer) int            { return 0 }
+func outCalls(w io.Writer) int          { return 0 }
+func outByte(w io.Writer, i int) byte   { return 0 }
+func sameBase(a, b []byte) bool         { return false }
+func fresh(b []byte) bool               { return false }
+func freshStr(s string) bool            { return false }
+func strViewOf(s string, b []byte) bool { return false }
+func validUTF8(s string) bool           { return false }
+
+// ---------------------------------------------------------------------------
+// Specification functions (RFC 6455 §5.2), written from the RFC text.
+
+// specHdrLen is the size of the minimal encoding of a header: 2, 4 or 10 bytes, plus 4 when masked.
+func specHdrLen(length int64, masked bool) int {
+	n := 10
+	if length <= 125 {
+		n = 2
+	} else if length <= 65535 {
+		n = 4
+	}
+	if masked {
+		n += 4
+	}
+	return n
+}
+
+// validHdr: the header domain of C01.
+func validHdr(h Header) bool {
+	return h.Rsv < 8 && h.OpCode < 16 && h.Length >= 0
+}
+
+// ---------------------------------------------------------------------------
+// Rules owned by CheckHeader (RFC 6455 §5.2, §5.4, §5.5), one predicate each.
+
+func specIsControl(op OpCode) bool  { return op >= 8 }
+func specIsReserved(op OpCode) bool { return (op >= 3 && op <= 7) || op >= 11 }
+
+func ruleReservedOp(h Header) bool   { return specIsReserved(h.OpCode) }
+func ruleCtrlLong(h Header) bool     { return specIsControl(h.OpCode) && h.Length > 125 }
+func ruleCtrlNotFin(h Header) bool   { return specIsControl(h.OpCode) && !h.Fin }
+func ruleRsv(h Header, s State) bool { return h.Rsv != 0 && s&StateExtended == 0 }
+func ruleMaskRequired(h Header, s State) bool {
+	return s&StateServerSide != 0 && !h.Masked
+}
+func ruleMaskUnexpected(h Header, s State) bool {
+	return s&StateClientSide != 0 && h.Masked
+}
+func ruleContExpected(h Header, s State) bool {
+	return s&StateFragmented != 0 && !specIsControl(h.OpCode) && h.OpCode != OpContinuation
+}
+func ruleContUnexpected(h Header, s State) bool {
+	return s&StateFragmented == 0 && h.OpCode == OpContinuation
+}
+
+func specHeaderOK(h Header, s State) bool {
+	return !ruleReservedOp(h) && !ruleCtrlLong(h) && !ruleCtrlNotFin(h) && !ruleRsv(h, s) &&
+		!ruleMaskRequired(h, s) && !ruleMaskUnexpected(h, s) && !ruleContExpected(h, s) && !ruleContUnexpected(h, s)
+}
+
+// ---------------------------------------------------------------------------
+// Contracts.
+
+//@ func HeaderSize
+//@   props C01 C06
+//@   requires [len] h.Length >= 0
+//@   ensures  [size] n == specHdrLen(h.Length, h.Masked)
+//@   assigns nothing
+
+//@ func CheckHeader
+//@   props C03 C05
+//@   requires [dom] h.OpCode < 16
+//@   ensures  [iff] (result == nil) == specHeaderOK(h, s)
+//@   ensures  [name-op]   result == ErrProtocolOpCodeReserved ==> ruleReservedOp(h)
+//@   ensures  [name-long] result == ErrProtocolControlPayloadOverflow ==> ruleCtrlLong(h)
+//@   ensures  [name-fin]  result == ErrProtocolControlNotFinal ==> ruleCtrlNotFin(h)
+//@   ensures  [name-rsv]  result == ErrProtocolNonZeroRsv ==> ruleRsv(h, s)
+//@   ensures  [name-mreq] result == ErrProtocolMaskRequired ==> ruleMaskRequired(h, s)
+//@   ensures  [name-munx] result == ErrProtocolMaskUnexpected ==> ruleMaskUnexpected(h, s)
+//@   ensures  [name-cexp] result == ErrProtocolContinuationExpected ==> ruleContExpected(h, s)
+//@   ensures  [name-cunx] result == ErrProtocolContinuationUnexpected ==> ruleContUnexpected(h, s)
+//@   ensures  [named] result == nil || result == ErrProtocolOpCodeReserved || result == ErrProtocolControlPayloadOverflow || result == ErrProtocolControlNotFinal || result == ErrProtocolNonZeroRsv || result == ErrProtocolMaskRequired || result == ErrProtocolMaskUnexpected || result == ErrProtocolContinuationExpected || result == ErrProtocolContinuationUnexpected
+//@   assigns nothing
